@@ -97,6 +97,16 @@ func genC19(t *rapid.T) C19Case {
 	for _, n := range names {
 		splice(g.Prog.Files[n])
 	}
+	// hostile directive lines (odd replacement lists, missing arguments, glued text)
+	if rapid.IntRange(0, 5).Draw(t, "hostiledirective") == 0 {
+		l := ragen.Line{K: ragen.KRaw, T: rapid.SampledFrom([]string{
+			"##!> include f0 -- a", "##!> include f0 -- a b c", "##!> include-except f0 f1 -- a b c", "##!> include f0 --", "##!> include nosuch -- x",
+			"##!> include-except f0", "##!> include-except", "##!> include", "##!> define", "##!> define x", "##!> cmdline", "##!> cmdline  ", "##!>", "##!> assemble x y",
+			"##!=<", "##!=> ", "##!+", "##!+ ", "##!^", "##!$", "##!+ isx", "##!<", "##!< ##!<",
+		}).Draw(t, "hd")}
+		pos := rapid.IntRange(0, len(g.Prog.Main)).Draw(t, "hdpos")
+		g.Prog.Main = append(g.Prog.Main[:pos], append([]ragen.Line{l}, g.Prog.Main[pos:]...)...)
+	}
 	c.Stdin = g.Prog.MainText()
 	for n, l := range g.Prog.Files {
 		c.Files[n] = ragen.Print(l, "\n", true)
